@@ -42,6 +42,13 @@ struct Impl {
 fn answer(tag: &str, method: &str, log: &Log, req: Request<Msg>) -> Result<Response<Msg>, Status> {
     log.lock().unwrap().push(format!("{tag}.{method}"));
     let m = req.into_inner();
+    if let Some(rest) = m.s.strip_prefix("failcode:") {
+        // the handler's own status with a given code, with or without a message
+        let (code, with_msg) = rest.split_once(':').map(|(c, w)| (c, w == "with")).unwrap_or((rest, true));
+        let code = StatusCode::new(code.parse().unwrap_or(500)).unwrap_or(StatusCode::InternalServerError);
+        let st = if with_msg { Status::new_with_message(code, format!("m{}", m.a)) } else { Status::new(code) };
+        return Err(st.with_header("why", "because").with_header("x-detail", "kept too"));
+    }
     if m.s == "fail-bare" {
         // an error status that carries headers but no message
         Err(Status::new(StatusCode::BadRequest).with_header("why", "because").with_header("retry-after-ms", "250"))
@@ -262,6 +269,38 @@ pub fn replay(a: &Args) -> i32 {
                     if resp.status().to_u16() as u64 != row["expect"]["code"].as_u64().unwrap() || !ran.is_empty() {
                         mismatches.push(json!({"what": format!("{path}: undecodable payload answered {:?}, handlers run {ran:?}", resp.status()), "row": row}));
                     }
+                }
+            }
+        }
+    }
+    // (b') every error code a handler may choose, with and without a message
+    if let Some(rows) = tables.get("codegen_statuses").and_then(|v| v.as_array()) {
+        for row in rows {
+            let code = row["code"].as_u64().unwrap();
+            let with = row["message"] == "with";
+            let msg = Msg { a: 9, s: format!("failcode:{code}:{}", if with { "with" } else { "without" }) };
+            let mut results: Vec<(&str, Result<Response<Msg>, Status>, Vec<String>)> = Vec::new();
+            let ran_now = || log.lock().unwrap().drain(..).collect::<Vec<_>>();
+            let mut c1 = gen::root_greeter::greeter_client::GreeterClient::new(router.clone());
+            let r = rt.block_on(c1.say_hello(msg.clone()));
+            results.push(("Greeter.say_hello", r, ran_now()));
+            let r = rt.block_on(c1.say(msg.clone()));
+            results.push(("Greeter.say", r, ran_now()));
+            let mut c3 = gen::pq_greeter::greeter_client::GreeterClient::new(router.clone());
+            let r = rt.block_on(c3.say_hello(msg.clone()));
+            results.push(("p.q.Greeter.say_hello", r, ran_now()));
+            for (name, res, ran) in results {
+                evaluations += 1;
+                let ok = match &res {
+                    Err(st) => st.status().to_u16() as u64 == code
+                        && st.headers().get("why").map(|x| x.as_str()) == Some("because")
+                        && st.headers().get("x-detail").map(|x| x.as_str()) == Some("kept too")
+                        && format!("{st:?}").contains("m9") == with,
+                    Ok(_) => false,
+                };
+                if !ok || ran != vec![name.to_string()] {
+                    mismatches.push(json!({"what": format!("{name}: the handler's status {code} ({} message, headers why / x-detail) reached the typed caller as {:?}; handlers run {ran:?}",
+                        if with { "with" } else { "without" }, res.as_ref().map(|r| r.inner().clone())), "row": row}));
                 }
             }
         }
